@@ -31,15 +31,341 @@ def stepOf (c : RelCfg) (t : Int) : Int :=
 def decorate (c : RelCfg) (r : RRow) : RRow :=
   if c.releaseTimeCol then { r with cols := r.cols ++ [("release_time", Val.num r.time)] } else r
 
+/-! ### helpers: distinct times -/
+
+/-- one step of `index.unique()` -/
+def ins (acc : List Int) (t : Int) : List Int := if acc.contains t then acc else acc ++ [t]
+
+theorem uniqueTimes_eq (rows : List RRow) : uniqueTimes rows = (rows.map (·.time)).foldl ins [] := by
+  unfold uniqueTimes; rw [List.foldl_map]; rfl
+
+theorem mem_foldl_ins (l : List Int) : ∀ (acc : List Int) (t : Int),
+    t ∈ l.foldl ins acc ↔ t ∈ acc ∨ t ∈ l := by
+  induction l with
+  | nil => simp
+  | cons x l ih =>
+    intro acc t
+    simp only [List.foldl_cons, ih, ins]
+    by_cases hx : x ∈ acc
+    · simp only [List.contains_iff_mem, hx, if_true, List.mem_cons]
+      constructor
+      · rintro (h | h)
+        · exact Or.inl h
+        · exact Or.inr (Or.inr h)
+      · rintro (h | h | h)
+        · exact Or.inl h
+        · exact Or.inl (h ▸ hx)
+        · exact Or.inr h
+    · simp only [List.contains_iff_mem, hx, if_false, List.mem_cons, List.mem_append]
+      tauto
+
+theorem mem_uniqueTimes (rows : List RRow) (t : Int) :
+    t ∈ uniqueTimes rows ↔ ∃ x ∈ rows, x.time = t := by
+  rw [uniqueTimes_eq, mem_foldl_ins]; simp
+
+theorem foldl_ins_prefix (l : List Int) : ∀ (acc : List Int), ∃ m, l.foldl ins acc = acc ++ m := by
+  induction l with
+  | nil => intro acc; exact ⟨[], by simp⟩
+  | cons x l ih =>
+    intro acc
+    simp only [List.foldl_cons, ins]
+    split
+    · exact ih acc
+    · obtain ⟨m, hm⟩ := ih (acc ++ [x])
+      exact ⟨x :: m, by rw [hm]; simp⟩
+
+theorem pairwise_foldl_ins (rev : Bool) (l : List Int) : ∀ (acc : List Int),
+    acc.Pairwise (fun a b => before rev a b = true) →
+    l.Pairwise (fun a b => before rev b a = false) →
+    (∀ a ∈ acc, ∀ x ∈ l, before rev x a = false) →
+    (l.foldl ins acc).Pairwise (fun a b => before rev a b = true) := by
+  induction l with
+  | nil => intro acc h _ _; simpa using h
+  | cons x l ih =>
+    intro acc hacc hl hal
+    rw [List.pairwise_cons] at hl
+    simp only [List.foldl_cons, ins]
+    by_cases hx : x ∈ acc
+    · simp only [List.contains_iff_mem, hx, if_true]
+      exact ih acc hacc hl.2 (fun a ha y hy => hal a ha y (List.mem_cons_of_mem _ hy))
+    · simp only [List.contains_iff_mem, hx, if_false]
+      apply ih _ _ hl.2
+      · intro a ha y hy
+        rcases List.mem_append.1 ha with ha | ha
+        · exact hal a ha y (List.mem_cons_of_mem _ hy)
+        · rw [List.mem_singleton] at ha; subst ha; exact hl.1 y hy
+      · rw [List.pairwise_append]
+        refine ⟨hacc, by simp, ?_⟩
+        intro a ha b hb
+        rw [List.mem_singleton] at hb; subst hb
+        have h1 := hal a ha b (List.mem_cons_self ..)
+        have h2 : a ≠ b := fun h => hx (h ▸ ha)
+        revert h1; cases rev <;> simp [before] <;> omega
+
+theorem uniqueTimes_sorted (rev : Bool) (rows : List RRow) (hs : SimSorted rev rows) :
+    (uniqueTimes rows).Pairwise (fun a b => before rev a b = true) := by
+  rw [uniqueTimes_eq]
+  apply pairwise_foldl_ins rev _ [] (by simp) _ (by simp)
+  rw [List.pairwise_map]; exact hs
+
+theorem uniqueTimes_map_decorate (c : RelCfg) (W : List RRow) :
+    uniqueTimes (W.map (decorate c)) = uniqueTimes W := by
+  rw [uniqueTimes_eq, uniqueTimes_eq, List.map_map]
+  congr 1
+  apply List.map_congr_left
+  intro x _
+  simp only [Function.comp, decorate]; split <;> rfl
+
+
+/-! ### helpers: the time grid -/
+
+/-- signed displacement from the start in simulation direction -/
+def sd (c : RelCfg) (t : Int) : Int := if c.rev then c.start - t else t - c.start
+
+theorem before_iff_sd (c : RelCfg) (a b : Int) : before c.rev a b = true ↔ sd c a < sd c b := by
+  unfold before sd; cases c.rev <;> simp
+
+theorem before_false_iff_sd (c : RelCfg) (a b : Int) : before c.rev a b = false ↔ sd c b ≤ sd c a := by
+  unfold before sd; cases c.rev <;> simp
+  omega
+
+theorem sd_start (c : RelCfg) : sd c c.start = 0 := by unfold sd; split <;> omega
+
+theorem sd_inj (c : RelCfg) {a b : Int} (h : sd c a = sd c b) : a = b := by
+  unfold sd at h; split at h <;> omega
+
+theorem stepOf_mul (c : RelCfg) (hdt : 0 < c.dt) (t : Int) (h : c.dt ∣ t - c.start) :
+    c.dt * stepOf c t = sd c t := by
+  unfold stepOf sd
+  split
+  · rw [Int.fdiv_eq_ediv_of_nonneg _ (le_of_lt hdt)]
+    have h' : c.dt ∣ c.start - t := by
+      have := Int.dvd_neg.2 h; rwa [Int.neg_sub] at this
+    exact Int.mul_ediv_cancel' h'
+  · rw [Int.fdiv_eq_ediv_of_nonneg _ (le_of_lt hdt)]
+    exact Int.mul_ediv_cancel' h
+
+theorem stepOf_lt (c : RelCfg) (hdt : 0 < c.dt) {a b : Int} (ha : c.dt ∣ a - c.start)
+    (hb : c.dt ∣ b - c.start) (h : before c.rev a b = true) : stepOf c a < stepOf c b := by
+  rw [before_iff_sd, ← stepOf_mul c hdt a ha, ← stepOf_mul c hdt b hb] at h
+  exact (Int.mul_lt_mul_left hdt).1 h
+
+theorem stepOf_inj (c : RelCfg) (hdt : 0 < c.dt) {a b : Int} (ha : c.dt ∣ a - c.start)
+    (hb : c.dt ∣ b - c.start) (h : stepOf c a = stepOf c b) : a = b := by
+  apply sd_inj c
+  rw [← stepOf_mul c hdt a ha, ← stepOf_mul c hdt b hb, h]
+
+theorem stepOf_nonneg (c : RelCfg) (hdt : 0 < c.dt) {a : Int} (ha : c.dt ∣ a - c.start)
+    (h : before c.rev a c.start = false) : 0 ≤ stepOf c a := by
+  rw [before_false_iff_sd, sd_start, ← stepOf_mul c hdt a ha] at h
+  by_contra hn
+  have : c.dt * stepOf c a < c.dt * 0 := (Int.mul_lt_mul_left hdt).2 (by omega)
+  omega
+
+/-! ### helpers: `update` / `run` on a strictly increasing step list -/
+
+theorem update_core (G : Int → List RRow) (tot : Nat) (pre post : List Int) (s : Int)
+    (hpre : ∀ x ∈ pre, x < s) (hpost : post.Pairwise (· < ·)) (hge : ∀ x ∈ post, s ≤ x)
+    (hG : ∀ k, k ∉ pre ++ post → G k = []) :
+    ∃ pre' post', Rel.update ⟨pre ++ post, (pre ++ post).map G, pre.length, tot⟩ s
+        = (⟨pre' ++ post', (pre' ++ post').map G, pre'.length, tot⟩, expand (G s))
+      ∧ pre' ++ post' = pre ++ post ∧ (∀ x ∈ pre', x < s + 1) ∧ post'.Pairwise (· < ·)
+      ∧ (∀ x ∈ post', s + 1 ≤ x) := by
+  have hspre : s ∉ pre := fun h => lt_irrefl _ (hpre s h)
+  cases post with
+  | nil =>
+    refine ⟨pre, [], ?_, rfl, fun x hx => by have := hpre x hx; omega, hpost, by simp⟩
+    have : G s = [] := hG s (by simpa using hspre)
+    simp [Rel.update, hspre, this, expand]
+  | cons p post' =>
+    rw [List.pairwise_cons] at hpost
+    by_cases hp : p = s
+    · subst hp
+      refine ⟨pre ++ [p], post', ?_, by simp, ?_, hpost.2, ?_⟩
+      · simp [Rel.update]
+      · intro x hx
+        rcases List.mem_append.1 hx with hx | hx
+        · have := hpre x hx; omega
+        · simp at hx; omega
+      · intro x hx; have := hpost.1 x hx; omega
+    · have hps : s < p := by
+        have := hge p (List.mem_cons_self ..); omega
+      have hs' : s ∉ p :: post' := by
+        intro h
+        rcases List.mem_cons.1 h with h | h
+        · exact hp h.symm
+        · have := hpost.1 s h; omega
+      refine ⟨pre, p :: post', ?_, rfl, fun x hx => by have := hpre x hx; omega,
+        List.pairwise_cons.2 hpost, ?_⟩
+      · have : G s = [] := hG s (by simp only [List.mem_append, not_or]; exact ⟨hspre, hs'⟩)
+        have h2 : ¬ s = p := fun h => hp h.symm
+        have h3 : s ∉ post' := fun h => hs' (List.mem_cons_of_mem _ h)
+        simp [Rel.update, this, expand, hspre, h2, h3]
+      · intro x hx
+        rcases List.mem_cons.1 hx with hx | hx
+        · omega
+        · have := hpost.1 x hx; omega
+
+theorem run_core (G : Int → List RRow) (tot : Nat) : ∀ (n : Nat) (pre post : List Int) (s : Int),
+    (∀ x ∈ pre, x < s) → post.Pairwise (· < ·) → (∀ x ∈ post, s ≤ x) →
+    (∀ k, k ∉ pre ++ post → G k = []) → ∀ k : Nat, k < n →
+    (Rel.run ⟨pre ++ post, (pre ++ post).map G, pre.length, tot⟩ s n)[k]?
+      = some (s + (k : Int), expand (G (s + (k : Int)))) := by
+  intro n
+  induction n with
+  | zero => intro _ _ _ _ _ _ _ k hk; omega
+  | succ n ih =>
+    intro pre post s hpre hpost hge hG k hk
+    obtain ⟨pre', post', hu, happ, hpre', hpost', hge'⟩ := update_core G tot pre post s hpre hpost hge hG
+    simp only [Rel.run, hu]
+    cases k with
+    | zero => simp
+    | succ k =>
+      rw [List.getElem?_cons_succ, ih pre' post' (s + 1) hpre' hpost' hge' (happ ▸ hG) k (by omega)]
+      have : s + 1 + (k : Int) = s + ((k + 1 : Nat) : Int) := by push_cast; omega
+      rw [this]
+
+
+/-! ### the releaser built from an already filtered table -/
+
+/-- the releaser `init` builds from the filtered table `W` (cold start) -/
+def build (c : RelCfg) (W : List RRow) : Rel :=
+  { steps := (uniqueTimes (W.map (decorate c))).map (stepOf c),
+    groups := (uniqueTimes (W.map (decorate c))).map (fun t => (W.map (decorate c)).filter (·.time == t)),
+    index := 0,
+    total := ((W.map (decorate c)).map (·.mult)).foldl (· + ·) 0 }
+
+theorem decorate_time (c : RelCfg) (x : RRow) : (decorate c x).time = x.time := by
+  unfold decorate; split <;> rfl
+
+theorem decorate_mult (c : RelCfg) (x : RRow) : (decorate c x).mult = x.mult := by
+  unfold decorate; split <;> rfl
+
+/-- `init` for a cold start: the two refusals, else `build` on the filtered table -/
+theorem init_form (c : RelCfg) (rows : List RRow) (hw : c.warm = false) :
+    Rel.init c rows =
+      if (rows.filter (fun r => before c.rev r.time c.stop)).isEmpty then .error .exit3 else
+      if ((if c.continuous then discretize c (rows.filter (fun r => before c.rev r.time c.stop))
+            else rows.filter (fun r => before c.rev r.time c.stop)).filter
+            (fun r => !(before c.rev r.time c.start))).isEmpty then .error .exit3
+      else .ok (build c ((if c.continuous then discretize c (rows.filter (fun r => before c.rev r.time c.stop))
+            else rows.filter (fun r => before c.rev r.time c.stop)).filter
+            (fun r => !(before c.rev r.time c.start)))) := by
+  have hdec : ∀ W : List RRow, (if c.releaseTimeCol then
+      W.map (fun r => { r with cols := r.cols ++ [("release_time", Val.num r.time)] }) else W)
+      = W.map (decorate c) := by
+    intro W
+    cases h : c.releaseTimeCol
+    · have : decorate c = id := by funext r; simp [decorate, h]
+      simp [this]
+    · have : decorate c = fun r => { r with cols := r.cols ++ [("release_time", Val.num r.time)] } := by
+        funext r; simp [decorate, h]
+      simp [this]
+  have htk : TK.time2step ⟨c.start, c.stop, c.dt, 0, c.rev, 0, 0, 0⟩ = stepOf c := rfl
+  unfold Rel.init build
+  simp only [hw, hdec, htk]
+  simp
+
+/-- the main lemma: a releaser built from a table sorted in simulation order, on the time
+    grid and not before the start, releases at step `k` exactly the rows whose time has step `k` -/
+theorem build_run (c : RelCfg) (W : List RRow) (hdt : 0 < c.dt) (hs : SimSorted c.rev W)
+    (hg : OnGrid c W) (hst : ∀ x ∈ W, before c.rev x.time c.start = false) (n k : Nat) (hk : k < n) :
+    ((build c W).run 0 n)[k]? = some ((k : Int),
+      expand ((W.filter (fun x => stepOf c x.time == (k : Int))).map (decorate c))) := by
+  let G : Int → List RRow := fun j => (W.filter (fun x => stepOf c x.time == j)).map (decorate c)
+  have hgrid : ∀ t ∈ uniqueTimes W, c.dt ∣ t - c.start := by
+    intro t ht
+    obtain ⟨x, hx, rfl⟩ := (mem_uniqueTimes W t).1 ht
+    exact hg x hx
+  have hb : build c W = ⟨[] ++ (uniqueTimes W).map (stepOf c),
+      ([] ++ (uniqueTimes W).map (stepOf c)).map G, ([] : List Int).length,
+      ((W.map (decorate c)).map (·.mult)).foldl (· + ·) 0⟩ := by
+    unfold build
+    rw [uniqueTimes_map_decorate]
+    simp only [List.nil_append, List.length_nil, List.map_map]
+    congr 1
+    apply List.map_congr_left
+    intro t ht
+    simp only [Function.comp, G]
+    rw [List.filter_map]
+    congr 1
+    apply List.filter_congr
+    intro x hx
+    simp only [Function.comp, decorate_time]
+    by_cases hxt : x.time = t
+    · simp [hxt]
+    · have : stepOf c x.time ≠ stepOf c t := fun h => hxt (stepOf_inj c hdt (hg x hx) (hgrid t ht) h)
+      simp [hxt, this]
+  rw [hb]
+  have := run_core G (((W.map (decorate c)).map (·.mult)).foldl (· + ·) 0) n []
+    ((uniqueTimes W).map (stepOf c)) 0 (by simp) ?_ ?_ ?_ k hk
+  · simpa [G] using this
+  · rw [List.pairwise_map]
+    refine (uniqueTimes_sorted c.rev W hs).imp_of_mem ?_
+    intro a b ha hb' hab
+    exact stepOf_lt c hdt (hgrid a ha) (hgrid b hb') hab
+  · intro x hx
+    obtain ⟨t, ht, rfl⟩ := List.mem_map.1 hx
+    obtain ⟨y, hy, rfl⟩ := (mem_uniqueTimes W t).1 ht
+    exact stepOf_nonneg c hdt (hg y hy) (hst y hy)
+  · intro j hj
+    simp only [G, List.map_eq_nil_iff, List.filter_eq_nil_iff]
+    intro x hx hxj
+    apply hj
+    simp only [List.nil_append, List.mem_map]
+    exact ⟨x.time, (mem_uniqueTimes W _).2 ⟨x, hx, rfl⟩, by simpa using hxj⟩
+
+
+theorem init_discrete (c : RelCfg) (rows : List RRow) (hc : c.continuous = false) (hw : c.warm = false) :
+    Rel.init c rows = if (rows.filter (fun x => inWindow c x.time)).isEmpty then .error .exit3
+      else .ok (build c (rows.filter (fun x => inWindow c x.time))) := by
+  rw [init_form c rows hw]
+  have hW : (rows.filter (fun r => before c.rev r.time c.stop)).filter
+      (fun r => !(before c.rev r.time c.start)) = rows.filter (fun x => inWindow c x.time) := by
+    rw [List.filter_filter]; rfl
+  simp only [hc, Bool.false_eq_true, if_false, hW]
+  by_cases h1 : (rows.filter (fun r => before c.rev r.time c.stop)).isEmpty
+  · have h2 : (rows.filter (fun x => inWindow c x.time)).isEmpty := by
+      rw [← hW]
+      rw [List.isEmpty_iff] at h1 ⊢
+      rw [h1]; rfl
+    simp [h1, h2]
+  · simp [h1]
+
 /-- **init_accepts_iff** (discrete, cold start): the set-up is accepted iff some row lies in
     the simulated window `[start, stop)`; otherwise it is refused with exit 3 at start-up. -/
 theorem init_accepts_iff (c : RelCfg) (rows : List RRow) (hc : c.continuous = false) (hw : c.warm = false) :
     (∃ r, Rel.init c rows = .ok r) ↔ ∃ x ∈ rows, inWindow c x.time = true := by
-  sorry
+  rw [init_discrete c rows hc hw]
+  by_cases h : (rows.filter (fun x => inWindow c x.time)).isEmpty
+  · simp only [h, if_true]
+    rw [List.isEmpty_iff, List.filter_eq_nil_iff] at h
+    constructor
+    · rintro ⟨r, hr⟩; cases hr
+    · rintro ⟨x, hx, hxw⟩; exact absurd hxw (h x hx)
+  · simp only [h]
+    rw [List.isEmpty_iff, List.filter_eq_nil_iff] at h
+    constructor
+    · intro _
+      by_contra hn
+      apply h
+      intro a ha haw
+      exact hn ⟨a, ha, haw⟩
+    · intro _; exact ⟨_, rfl⟩
 
 theorem init_refuses (c : RelCfg) (rows : List RRow) (hc : c.continuous = false) (hw : c.warm = false)
     (h : ∀ x ∈ rows, inWindow c x.time = false) : Rel.init c rows = .error .exit3 := by
-  sorry
+  rw [init_discrete c rows hc hw]
+  have : rows.filter (fun x => inWindow c x.time) = [] := by
+    rw [List.filter_eq_nil_iff]; intro a ha; simp [h a ha]
+  simp [this]
+
+theorem init_discrete_ok (c : RelCfg) (rows : List RRow) (hc : c.continuous = false) (hw : c.warm = false)
+    (r : Rel) (h : Rel.init c rows = .ok r) : r = build c (rows.filter (fun x => inWindow c x.time)) := by
+  rw [init_discrete c rows hc hw] at h
+  split at h
+  · cases h
+  · injection h with h; exact h.symm
 
 /-- **released_at_step** (discrete mode): at model step `k` of a run exactly the rows whose
     release time lies in the window and falls on step `k` are released, each `mult` times, in
@@ -49,7 +375,26 @@ theorem released_at_step (c : RelCfg) (rows : List RRow) (hdt : 0 < c.dt) (hc : 
     (h : Rel.init c rows = .ok r) (n k : Nat) (hk : k < n) :
     (r.run 0 n)[k]? = some ((k : Int),
       expand ((rows.filter (fun x => inWindow c x.time && stepOf c x.time == (k : Int))).map (decorate c))) := by
-  sorry
+  rw [init_discrete_ok c rows hc hw r h]
+  rw [build_run c _ hdt (hs.sublist List.filter_sublist)
+    (fun x hx => hg x (List.mem_of_mem_filter hx)) ?_ n k hk]
+  · rw [List.filter_filter]
+    have : rows.filter (fun a => stepOf c a.time == (k : Int) && inWindow c a.time)
+        = rows.filter (fun x => inWindow c x.time && stepOf c x.time == (k : Int)) :=
+      List.filter_congr (fun x _ => Bool.and_comm _ _)
+    rw [this]
+  · intro x hx
+    have := (List.mem_filter.1 hx).2
+    unfold inWindow at this
+    simp only [Bool.and_eq_true, Bool.not_eq_true'] at this
+    exact this.1
+
+theorem mem_expand {g : List RRow} {p : RRow} (h : p ∈ expand g) : p ∈ g := by
+  unfold expand at h
+  rw [List.mem_flatMap] at h
+  obtain ⟨a, ha, hp⟩ := h
+  rw [List.mem_replicate] at hp
+  exact hp.2 ▸ ha
 
 /-- **outside_window_none**: whatever is released at step `k` comes from a row inside the
     window whose time falls on step `k` — rows outside the window produce nothing, at any step -/
@@ -58,19 +403,46 @@ theorem outside_window_none (c : RelCfg) (rows : List RRow) (hdt : 0 < c.dt) (hc
     (h : Rel.init c rows = .ok r) (n k : Nat) (hk : k < n) (out : List RRow)
     (hout : (r.run 0 n)[k]? = some ((k : Int), out)) :
     ∀ p ∈ out, ∃ y ∈ rows, inWindow c y.time = true ∧ stepOf c y.time = (k : Int) ∧ p = decorate c y := by
-  sorry
+  rw [released_at_step c rows hdt hc hw hs hg r h n k hk] at hout
+  injection hout with hout
+  injection hout with _ hout
+  subst hout
+  intro p hp
+  obtain ⟨y, hy, rfl⟩ := List.mem_map.1 (mem_expand hp)
+  rw [List.mem_filter] at hy
+  simp only [Bool.and_eq_true, beq_iff_eq] at hy
+  exact ⟨y, hy.1, hy.2.1, hy.2.2, rfl⟩
+
+theorem foldl_add_eq_sum (l : List Nat) : l.foldl (· + ·) 0 = l.sum := by
+  rw [List.sum_eq_foldl]
 
 /-- a row is released exactly `mult` times (so `mult = 0` rows contribute nothing) -/
 theorem expand_count (g : List RRow) (x : RRow) [DecidableEq RRow] :
     (expand g).count x = ((g.filter (· == x)).map (·.mult)).foldl (· + ·) 0 := by
-  sorry
+  rw [foldl_add_eq_sum]
+  unfold expand
+  rw [List.count_flatMap]
+  induction g with
+  | nil => simp
+  | cons a g ih =>
+    rw [List.map_cons, List.sum_cons, ih, List.filter_cons]
+    by_cases hax : a = x
+    · subst hax; simp
+    · simp [hax, List.count_replicate]
 
 /-- the total particle count announced at start-up is the number of particles the run releases
     (when the run covers all release steps) -/
 theorem total_is_sum (c : RelCfg) (rows : List RRow) (hc : c.continuous = false) (hw : c.warm = false)
     (r : Rel) (h : Rel.init c rows = .ok r) :
     r.total = ((rows.filter (fun x => inWindow c x.time)).map (·.mult)).foldl (· + ·) 0 := by
-  sorry
+  rw [init_discrete_ok c rows hc hw r h]
+  unfold build
+  simp only [List.map_map]
+  congr 1
+  apply List.map_congr_left
+  intro x _
+  exact decorate_mult c x
+
 
 /-! ### continuous mode -/
 
@@ -81,6 +453,341 @@ def isTick (c : RelCfg) (t0 t : Int) : Bool :=
 /-- the file time in force at tick `t`: the latest file time at or before it (simulation order) -/
 def fileTimeAt (c : RelCfg) (rows : List RRow) (t : Int) : Option Int :=
   ((uniqueTimes rows).filter (fun ft => !(before c.rev t ft))).getLast?
+
+/-- signed tick step -/
+def tickStep (c : RelCfg) : Int := if c.rev then -c.freq else c.freq
+
+/-- the rows in force at tick `t` (their own file time) -/
+def curAt (c : RelCfg) (r1 : List RRow) (t : Int) : List RRow :=
+  match fileTimeAt c r1 t with
+  | some ft => r1.filter (fun x => x.time == ft)
+  | none => []
+
+/-- the rows `discretize` emits for tick `t` -/
+def rowsAt (c : RelCfg) (r1 : List RRow) (t : Int) : List RRow :=
+  (curAt c r1 t).map (fun x => { x with time := t })
+
+theorem rowsAt_time {c : RelCfg} {r1 : List RRow} {t : Int} {x : RRow} (h : x ∈ rowsAt c r1 t) :
+    x.time = t := by
+  unfold rowsAt at h
+  obtain ⟨y, _, rfl⟩ := List.mem_map.1 h
+  rfl
+
+/-- one step of the forward fill in `discretize` -/
+def dstep (r1 : List RRow) (acc : List RRow × List RRow) (tick : Int) : List RRow × List RRow :=
+  let cur := if (uniqueTimes r1).contains tick then r1.filter (·.time == tick) else acc.2
+  (acc.1 ++ cur.map (fun r => { r with time := tick }), cur)
+
+theorem dstep_eq (r1 : List RRow) (acc : List RRow × List RRow) (tick : Int) :
+    dstep r1 acc tick =
+      (acc.1 ++ (if (uniqueTimes r1).contains tick then r1.filter (·.time == tick) else acc.2).map
+          (fun r => { r with time := tick }),
+        if (uniqueTimes r1).contains tick then r1.filter (·.time == tick) else acc.2) := rfl
+
+theorem discretize_def (c : RelCfg) (r1 : List RRow) (t0 : Int) (tl : List Int)
+    (h : uniqueTimes r1 = t0 :: tl) :
+    discretize c r1 = ((arangeInt t0 c.stop (tickStep c)).foldl (dstep r1) ([], [])).1 := by
+  unfold discretize
+  split
+  · rename_i h'; rw [h] at h'; cases h'
+  · rename_i t0' tl' h'
+    rw [h] at h'
+    injection h' with h1 h2
+    subst h1
+    rfl
+
+theorem arange_form (a b s : Int) :
+    ∃ N : Nat, arangeInt a b s = (List.range N).map (fun k : Nat => a + s * (k : Int)) := by
+  unfold arangeInt
+  split_ifs
+  · exact ⟨_, rfl⟩
+  · exact ⟨0, rfl⟩
+  · exact ⟨_, rfl⟩
+  · exact ⟨0, rfl⟩
+  · exact ⟨0, rfl⟩
+
+theorem before_asymm {rev : Bool} {a b : Int} (h : before rev a b = true) : before rev b a = false := by
+  revert h; cases rev <;> simp [before] <;> omega
+
+theorem before_irrefl (rev : Bool) (a : Int) : before rev a a = false := by
+  cases rev <;> simp [before]
+
+theorem getLast_filter_self (rev : Bool) (L : List Int)
+    (hL : L.Pairwise (fun a b => before rev a b = true)) (t : Int) (ht : t ∈ L) :
+    (L.filter (fun ft => !(before rev t ft))).getLast? = some t := by
+  obtain ⟨A, B, rfl⟩ := List.append_of_mem ht
+  rw [List.pairwise_append, List.pairwise_cons] at hL
+  obtain ⟨_, ⟨hB, _⟩, hAB⟩ := hL
+  have hA' : A.filter (fun ft => !(before rev t ft)) = A := by
+    rw [List.filter_eq_self]
+    intro a ha
+    simp [before_asymm (hAB a ha t (List.mem_cons_self ..))]
+  have hB' : B.filter (fun ft => !(before rev t ft)) = [] := by
+    rw [List.filter_eq_nil_iff]
+    intro b hb
+    simp [hB b hb]
+  rw [List.filter_append, List.filter_cons, hA', hB']
+  simp [before_irrefl]
+
+/-- the forward fill along the first `N` ticks: what has been emitted, and the current row set -/
+theorem fold_inv (c : RelCfg) (r1 : List RRow) (t0 : Int)
+    (hL : (uniqueTimes r1).Pairwise (fun a b => before c.rev a b = true))
+    (ht0 : t0 ∈ uniqueTimes r1) (hf : 0 < c.freq)
+    (hgrid : ∀ ft ∈ uniqueTimes r1, ∃ q : Int, ft = t0 + tickStep c * q) : ∀ N : Nat,
+    (((List.range N).map (fun k : Nat => t0 + tickStep c * (k : Int))).foldl (dstep r1) ([], [])).1
+      = ((List.range N).map (fun k : Nat => t0 + tickStep c * (k : Int))).flatMap (rowsAt c r1)
+    ∧ ∀ M : Nat, N = M + 1 →
+      (((List.range N).map (fun k : Nat => t0 + tickStep c * (k : Int))).foldl (dstep r1) ([], [])).2
+        = curAt c r1 (t0 + tickStep c * (M : Int)) := by
+  intro N
+  induction N with
+  | zero => simp
+  | succ N ih =>
+    rw [List.range_succ, List.map_append, List.foldl_append, List.flatMap_append]
+    simp only [List.map_cons, List.map_nil, List.foldl_cons, List.foldl_nil, List.flatMap_cons,
+      List.flatMap_nil, List.append_nil]
+    have hcur : (if (uniqueTimes r1).contains (t0 + tickStep c * (N : Int))
+          then r1.filter (·.time == t0 + tickStep c * (N : Int))
+          else (((List.range N).map (fun k : Nat => t0 + tickStep c * (k : Int))).foldl
+            (dstep r1) ([], [])).2) = curAt c r1 (t0 + tickStep c * (N : Int)) := by
+      by_cases hmem : t0 + tickStep c * (N : Int) ∈ uniqueTimes r1
+      · simp only [List.contains_iff_mem, hmem, if_true]
+        unfold curAt fileTimeAt
+        rw [getLast_filter_self c.rev _ hL _ hmem]
+      · simp only [List.contains_iff_mem, hmem, if_false]
+        cases N with
+        | zero => exact absurd (by simpa using ht0) hmem
+        | succ M =>
+          rw [ih.2 M rfl]
+          unfold curAt fileTimeAt
+          have : (uniqueTimes r1).filter (fun ft => !(before c.rev (t0 + tickStep c * ((M + 1 : Nat) : Int)) ft))
+              = (uniqueTimes r1).filter (fun ft => !(before c.rev (t0 + tickStep c * (M : Int)) ft)) := by
+            apply List.filter_congr
+            intro ft hft
+            obtain ⟨q, rfl⟩ := hgrid ft hft
+            have hne : q ≠ ((M + 1 : Nat) : Int) := by
+              intro hq; apply hmem; rw [← hq]; exact hft
+            congr 1
+            unfold tickStep before
+            push_cast at hne ⊢
+            cases c.rev
+            · simp only [Bool.false_eq_true, if_false]
+              have h1 := @Int.mul_lt_mul_left c.freq ((M : Int) + 1) q hf
+              have h2 := @Int.mul_lt_mul_left c.freq (M : Int) q hf
+              by_cases hq : (M : Int) + 1 < q
+              · have h3 : (M : Int) < q := by omega
+                simp [h1.2 hq, h2.2 h3]
+              · have h3 : ¬ (M : Int) < q := by omega
+                have h4 := mt h1.1 hq
+                have h5 := mt h2.1 h3
+                simp [h4, h5]
+            · simp only [if_true]
+              have h1 := @Int.mul_lt_mul_left c.freq ((M : Int) + 1) q hf
+              have h2 := @Int.mul_lt_mul_left c.freq (M : Int) q hf
+              simp only [Int.neg_mul, add_lt_add_iff_left, neg_lt_neg_iff]
+              by_cases hq : (M : Int) + 1 < q
+              · have h3 : (M : Int) < q := by omega
+                simp [h1.2 hq, h2.2 h3]
+              · have h3 : ¬ (M : Int) < q := by omega
+                have h4 := mt h1.1 hq
+                have h5 := mt h2.1 h3
+                simp [h4, h5]
+          rw [this]
+    constructor
+    · rw [dstep_eq, hcur, ih.1]
+      rfl
+    · intro M hM
+      have : N = M := by omega
+      subst this
+      rw [dstep_eq, hcur]
+
+/-- **discretize, characterised**: tick by tick in order, the rows of the file time in force
+    (`fileTimeAt`) with `time :=` the tick -/
+theorem discretize_eq (c : RelCfg) (r1 : List RRow) (t0 : Int) (tl : List Int)
+    (h0 : uniqueTimes r1 = t0 :: tl) (hs : SimSorted c.rev r1) (hf : 0 < c.freq)
+    (hg : ∀ x ∈ r1, c.freq ∣ x.time - t0) :
+    discretize c r1 = (arangeInt t0 c.stop (tickStep c)).flatMap (rowsAt c r1) := by
+  rw [discretize_def c r1 t0 tl h0]
+  obtain ⟨N, hN⟩ := arange_form t0 c.stop (tickStep c)
+  rw [hN]
+  refine (fold_inv c r1 t0 (uniqueTimes_sorted c.rev r1 hs) (by rw [h0]; simp) hf ?_ N).1
+  intro ft hft
+  obtain ⟨x, hx, rfl⟩ := (mem_uniqueTimes r1 ft).1 hft
+  obtain ⟨q, hq⟩ := hg x hx
+  unfold tickStep
+  cases c.rev
+  · exact ⟨q, by simp only [Bool.false_eq_true, if_false]; omega⟩
+  · exact ⟨-q, by simp only [if_true, Int.neg_mul, Int.mul_neg, neg_neg]; omega⟩
+
+
+theorem mem_arange_pos (a b s t : Int) (hs : 0 < s) :
+    t ∈ arangeInt a b s ↔ s ∣ t - a ∧ a ≤ t ∧ t < b := by
+  unfold arangeInt
+  simp only [gt_iff_lt, hs, if_true]
+  split
+  · rename_i hab
+    simp only [List.mem_map, List.mem_range, Int.lt_toNat]
+    constructor
+    · rintro ⟨j, hj, rfl⟩
+      have h1 : (j : Int) + 1 ≤ (b - a + s - 1) / s := by omega
+      rw [Int.le_ediv_iff_mul_le hs] at h1
+      have h2 : ((j : Int) + 1) * s = s * j + s := by rw [Int.add_mul, Int.one_mul, Int.mul_comm]
+      have h3 : 0 ≤ s * (j : Int) := Int.mul_nonneg (le_of_lt hs) (Int.natCast_nonneg j)
+      exact ⟨⟨j, by omega⟩, by omega, by omega⟩
+    · rintro ⟨⟨q, hq⟩, h1, h2⟩
+      have hq0 : 0 ≤ q := by
+        by_contra hn
+        have : s * q < s * 0 := (Int.mul_lt_mul_left hs).2 (by omega)
+        omega
+      refine ⟨q.toNat, ?_, ?_⟩
+      · rw [Int.toNat_of_nonneg hq0]
+        have : q + 1 ≤ (b - a + s - 1) / s := by
+          rw [Int.le_ediv_iff_mul_le hs]
+          have h2 : (q + 1) * s = s * q + s := by rw [Int.add_mul, Int.one_mul, Int.mul_comm]
+          omega
+        omega
+      · rw [Int.toNat_of_nonneg hq0]; omega
+  · simp only [List.not_mem_nil, false_iff]
+    rintro ⟨_, h1, h2⟩; omega
+
+theorem mem_arange_neg (a b s t : Int) (hs : 0 < s) :
+    t ∈ arangeInt a b (-s) ↔ s ∣ t - a ∧ t ≤ a ∧ b < t := by
+  unfold arangeInt
+  have h1 : ¬ (-s > 0) := by omega
+  have h2 : -s < 0 := by omega
+  simp only [h1, h2, if_true, if_false, neg_neg]
+  split
+  · rename_i hab
+    simp only [List.mem_map, List.mem_range, Int.lt_toNat]
+    constructor
+    · rintro ⟨j, hj, rfl⟩
+      have h1 : (j : Int) + 1 ≤ (a - b + s - 1) / s := by omega
+      rw [Int.le_ediv_iff_mul_le hs] at h1
+      have h2 : ((j : Int) + 1) * s = s * j + s := by rw [Int.add_mul, Int.one_mul, Int.mul_comm]
+      have h3 : 0 ≤ s * (j : Int) := Int.mul_nonneg (le_of_lt hs) (Int.natCast_nonneg j)
+      have h4 : -s * (j : Int) = -(s * j) := Int.neg_mul _ _
+      exact ⟨⟨-j, by rw [h4]; simp⟩, by omega, by omega⟩
+    · rintro ⟨⟨q, hq⟩, h1, h2⟩
+      have hq0 : 0 ≤ -q := by
+        by_contra hn
+        have : s * 0 < s * q := (Int.mul_lt_mul_left hs).2 (by omega)
+        omega
+      refine ⟨(-q).toNat, ?_, ?_⟩
+      · rw [Int.toNat_of_nonneg hq0]
+        have : -q + 1 ≤ (a - b + s - 1) / s := by
+          rw [Int.le_ediv_iff_mul_le hs]
+          have h2 : (-q + 1) * s = -(s * q) + s := by rw [Int.add_mul, Int.one_mul, Int.neg_mul, Int.mul_comm]
+          omega
+        omega
+      · rw [Int.toNat_of_nonneg hq0]
+        have h4 : -s * -q = s * q := Int.neg_mul_neg _ _
+        omega
+  · simp only [List.not_mem_nil, false_iff]
+    rintro ⟨_, h1, h2⟩; omega
+
+/-- the ticks of `discretize` are the tick-grid times before the stop -/
+theorem mem_ticks (c : RelCfg) (hf : 0 < c.freq) (t0 t : Int) :
+    t ∈ arangeInt t0 c.stop (tickStep c) ↔ isTick c t0 t = true ∧ before c.rev t c.stop = true := by
+  unfold tickStep isTick before
+  cases c.rev
+  · simp only [Bool.false_eq_true, if_false, mem_arange_pos _ _ _ _ hf, Bool.and_eq_true,
+      decide_eq_true_eq, Bool.not_eq_true', decide_eq_false_iff_not]
+    constructor
+    · rintro ⟨h1, h2, h3⟩; exact ⟨⟨h1, by omega⟩, h3⟩
+    · rintro ⟨⟨h1, h2⟩, h3⟩; exact ⟨h1, by omega, h3⟩
+  · simp only [if_true, mem_arange_neg _ _ _ _ hf, Bool.and_eq_true,
+      decide_eq_true_eq, Bool.not_eq_true', decide_eq_false_iff_not]
+    constructor
+    · rintro ⟨h1, h2, h3⟩; exact ⟨⟨h1, by omega⟩, h3⟩
+    · rintro ⟨⟨h1, h2⟩, h3⟩; exact ⟨h1, by omega, h3⟩
+
+/-- the ticks are strictly increasing in simulation order -/
+theorem ticks_sorted (c : RelCfg) (hf : 0 < c.freq) (t0 : Int) :
+    (arangeInt t0 c.stop (tickStep c)).Pairwise (fun a b => before c.rev a b = true) := by
+  obtain ⟨N, hN⟩ := arange_form t0 c.stop (tickStep c)
+  rw [hN, List.pairwise_map]
+  refine (List.pairwise_lt_range (n := N)).imp ?_
+  intro i j hij
+  have h := (@Int.mul_lt_mul_left c.freq (i : Int) (j : Int) hf).2 (by exact_mod_cast hij)
+  unfold tickStep before
+  cases c.rev
+  · simp only [Bool.false_eq_true, if_false, decide_eq_true_eq]; omega
+  · simp only [if_true, decide_eq_true_eq, Int.neg_mul]; omega
+
+theorem flatMap_single {α β : Type} [DecidableEq α] (l : List α) (hnd : l.Nodup) (t : α)
+    (F : α → List β) (hF : ∀ a ∈ l, a ≠ t → F a = []) :
+    l.flatMap F = if t ∈ l then F t else [] := by
+  induction l with
+  | nil => simp
+  | cons a l ih =>
+    rw [List.nodup_cons] at hnd
+    rw [List.flatMap_cons, ih hnd.2 (fun b hb => hF b (List.mem_cons_of_mem _ hb))]
+    by_cases hat : a = t
+    · subst hat
+      simp [hnd.1]
+    · have : t ≠ a := fun h => hat h.symm
+      simp [hF a (List.mem_cons_self ..) hat, this]
+
+theorem stepOf_step2time (c : RelCfg) (hdt : 0 < c.dt) (k : Int) :
+    stepOf c (if c.rev then c.start - k * c.dt else c.start + k * c.dt) = k := by
+  unfold stepOf
+  cases c.rev
+  · simp only [Bool.false_eq_true, if_false]
+    rw [Int.fdiv_eq_ediv_of_nonneg _ (le_of_lt hdt)]
+    have : c.start + k * c.dt - c.start = k * c.dt := by omega
+    rw [this, Int.mul_ediv_cancel _ (ne_of_gt hdt)]
+  · simp only [if_true]
+    rw [Int.fdiv_eq_ediv_of_nonneg _ (le_of_lt hdt)]
+    have : c.start - (c.start - k * c.dt) = k * c.dt := by omega
+    rw [this, Int.mul_ediv_cancel _ (ne_of_gt hdt)]
+
+theorem step2time_grid (c : RelCfg) (k : Int) :
+    c.dt ∣ (if c.rev then c.start - k * c.dt else c.start + k * c.dt) - c.start := by
+  cases c.rev
+  · exact ⟨k, by simp only [Bool.false_eq_true, if_false]; rw [Int.mul_comm]; omega⟩
+  · exact ⟨-k, by simp only [if_true]; rw [Int.mul_neg, Int.mul_comm]; omega⟩
+
+
+/-- the first file time: every row is at or after it, and it stays the first distinct time of
+    the table cut at the stop (when anything is left) -/
+theorem head_facts (c : RelCfg) (rows : List RRow) (hs : SimSorted c.rev rows) (t0 : Int)
+    (ht0 : (uniqueTimes rows).head? = some t0) :
+    (∀ x ∈ rows, before c.rev x.time t0 = false) ∧
+    (rows.filter (fun r => before c.rev r.time c.stop) ≠ [] →
+      ∃ tl, uniqueTimes (rows.filter (fun r => before c.rev r.time c.stop)) = t0 :: tl) := by
+  cases rows with
+  | nil => simp [uniqueTimes] at ht0
+  | cons x0 rest =>
+    have hu : ∀ l : List RRow, ∃ m, uniqueTimes (x0 :: l) = x0.time :: m := by
+      intro l
+      rw [uniqueTimes_eq, List.map_cons, List.foldl_cons]
+      obtain ⟨m, hm⟩ := foldl_ins_prefix (l.map (·.time)) (ins [] x0.time)
+      exact ⟨m, by rw [hm]; simp [ins]⟩
+    obtain ⟨m, hm⟩ := hu rest
+    rw [hm] at ht0
+    simp only [List.head?_cons, Option.some.injEq] at ht0
+    subst ht0
+    unfold SimSorted at hs
+    rw [List.pairwise_cons] at hs
+    have hall : ∀ x ∈ x0 :: rest, before c.rev x.time x0.time = false := by
+      intro x hx
+      rcases List.mem_cons.1 hx with rfl | hx
+      · exact before_irrefl _ _
+      · exact hs.1 x hx
+    refine ⟨hall, ?_⟩
+    intro hne
+    obtain ⟨y, hy⟩ := List.exists_mem_of_ne_nil _ hne
+    rw [List.mem_filter] at hy
+    have h1 := hall y hy.1
+    have h2 : before c.rev x0.time c.stop = true := by
+      have h3 := hy.2
+      revert h1 h3
+      unfold before
+      cases c.rev <;> simp <;> omega
+    rw [List.filter_cons]
+    simp only [h2, if_true]
+    obtain ⟨m', hm'⟩ := hu (rest.filter (fun r => before c.rev r.time c.stop))
+    exact ⟨m', hm'⟩
 
 /-- **continuous_ticks**: in continuous mode, at every release-frequency tick (counted from the
     first file time) inside the window, the row set of the latest file time at or before the tick
@@ -98,7 +805,115 @@ theorem continuous_ticks (c : RelCfg) (rows : List RRow) (hdt : 0 < c.dt) (hf : 
         | some ft => expand (((rows.filter (fun x => x.time == ft)).map (fun x => { x with time := t })).map (decorate c))
         | none => []
       else []) := by
-  sorry
+  intro t
+  rw [init_form c rows hw] at h
+  simp only [hc, if_true] at h
+  generalize hr1 : rows.filter (fun r => before c.rev r.time c.stop) = r1 at h ⊢
+  split at h
+  · cases h
+  rename_i hne1
+  split at h
+  · cases h
+  injection h with h
+  subst h
+  have hr1ne : r1 ≠ [] := by simpa [List.isEmpty_iff] using hne1
+  obtain ⟨_, htl⟩ := head_facts c rows hs t0 ht0
+  rw [hr1] at htl
+  obtain ⟨tl, h0⟩ := htl hr1ne
+  have hs1 : SimSorted c.rev r1 := by rw [← hr1]; exact hs.sublist List.filter_sublist
+  have hD := discretize_eq c r1 t0 tl h0 hs1 hf
+    (fun x hx => hg x (by rw [← hr1] at hx; exact List.mem_of_mem_filter hx))
+  rw [hD]
+  generalize hticks : arangeInt t0 c.stop (tickStep c) = ticks
+  have hmt : ∀ τ, τ ∈ ticks ↔ isTick c t0 τ = true ∧ before c.rev τ c.stop = true := by
+    intro τ; rw [← hticks]; exact mem_ticks c hf t0 τ
+  have hts : ticks.Pairwise (fun a b => before c.rev a b = true) := by
+    rw [← hticks]; exact ticks_sorted c hf t0
+  have htick_grid : ∀ τ ∈ ticks, c.dt ∣ τ - c.start := by
+    intro τ hτ
+    have h1 := ((hmt τ).1 hτ).1
+    unfold isTick at h1
+    simp only [Bool.and_eq_true, decide_eq_true_eq] at h1
+    have h2 : c.dt ∣ τ - t0 := Int.dvd_trans hfd h1.1
+    have h3 : τ - c.start = (τ - t0) + (t0 - c.start) := by omega
+    rw [h3]; exact Int.dvd_add h2 hg0
+  have hDtime : ∀ x ∈ ticks.flatMap (rowsAt c r1), x.time ∈ ticks := by
+    intro x hx
+    obtain ⟨τ, hτ, hxτ⟩ := List.mem_flatMap.1 hx
+    rw [rowsAt_time hxτ]; exact hτ
+  have hDs : SimSorted c.rev (ticks.flatMap (rowsAt c r1)) := by
+    unfold SimSorted
+    rw [List.pairwise_flatMap]
+    refine ⟨?_, ?_⟩
+    · intro τ _
+      unfold rowsAt
+      rw [List.pairwise_map]
+      exact List.pairwise_of_forall (fun _ _ => before_irrefl _ _)
+    · refine hts.imp ?_
+      intro a b hab x hx y hy
+      rw [rowsAt_time hx, rowsAt_time hy]; exact before_asymm hab
+  have htk : stepOf c t = (k : Int) := stepOf_step2time c hdt k
+  have htg : c.dt ∣ t - c.start := step2time_grid c k
+  rw [build_run c _ hdt (hDs.sublist List.filter_sublist)
+    (fun x hx => htick_grid _ (hDtime x (List.mem_of_mem_filter hx)))
+    (fun x hx => by simpa using (List.mem_filter.1 hx).2) n k hk]
+  -- the rows on step `k`
+  have hrt : ∀ x ∈ rowsAt c r1 t, (stepOf c x.time == (k : Int) && !(before c.rev x.time c.start))
+      = !(before c.rev t c.start) := by
+    intro x hx
+    rw [rowsAt_time hx, htk]; simp
+  have key : ((ticks.flatMap (rowsAt c r1)).filter (fun r => !(before c.rev r.time c.start))).filter
+      (fun x => stepOf c x.time == (k : Int))
+      = if (isTick c t0 t && inWindow c t) = true then rowsAt c r1 t else [] := by
+    rw [List.filter_filter, List.filter_flatMap]
+    rw [flatMap_single ticks (hts.imp (fun {a b} hab heq => by
+        subst heq; rw [before_irrefl] at hab; cases hab)) t]
+    · have hfl : (rowsAt c r1 t).filter
+          (fun x => stepOf c x.time == (k : Int) && !(before c.rev x.time c.start))
+          = if before c.rev t c.start = true then [] else rowsAt c r1 t := by
+        split
+        · rename_i hb
+          rw [List.filter_eq_nil_iff]; intro x hx; rw [hrt x hx, hb]; simp
+        · rename_i hb
+          rw [List.filter_eq_self]; intro x hx; rw [hrt x hx]; simpa using hb
+      rw [hfl]
+      have hm := hmt t
+      unfold inWindow
+      cases hi : isTick c t0 t <;> cases hb : before c.rev t c.start <;>
+        cases he : before c.rev t c.stop <;> simp [hi, he] at hm ⊢ <;> simp [hm]
+    · intro τ hτ hne
+      rw [List.filter_eq_nil_iff]
+      intro x hx
+      rw [rowsAt_time hx]
+      simp only [Bool.and_eq_true, beq_iff_eq, not_and]
+      intro hst
+      exact absurd (stepOf_inj c hdt (htick_grid τ hτ) htg (hst.trans htk.symm)) hne
+  rw [key]
+  congr 2
+  by_cases hcond : (isTick c t0 t && inWindow c t) = true
+  · simp only [hcond, if_true]
+    unfold rowsAt curAt
+    cases hft : fileTimeAt c r1 t with
+    | none => simp [expand]
+    | some ft =>
+      simp only []
+      have hftm : ft ∈ uniqueTimes r1 := by
+        unfold fileTimeAt at hft
+        exact (List.mem_filter.1 (List.mem_of_getLast? hft)).1
+      obtain ⟨y, hy, hyt⟩ := (mem_uniqueTimes r1 ft).1 hftm
+      rw [← hr1] at hy
+      have hstop : before c.rev ft c.stop = true := hyt ▸ (List.mem_filter.1 hy).2
+      have : r1.filter (fun x => x.time == ft) = rows.filter (fun x => x.time == ft) := by
+        rw [← hr1, List.filter_filter]
+        apply List.filter_congr
+        intro x _
+        by_cases hx : x.time = ft
+        · simp [hx, hstop]
+        · simp [hx]
+      rw [this]
+  · simp only [hcond]
+    simp [expand]
+
 
 /-! non-vacuity -/
 def exCfg : RelCfg := { start := 0, stop := 300, dt := 60, rev := false, continuous := false, freq := 60, warm := false, releaseTimeCol := false }
